@@ -112,6 +112,16 @@ impl anstyle_parse::Perform for WinconCapture {
         let mut g = None;
         let mut color_target = ColorTarget::Fg;
         for param in params {
+            if let (State::Normal, [target @ (38 | 48 | 58), 2, _color_space, r, g, b]) = (state, param) {
+                // ITU T.416: `38:2:<color-space>:r:g:b`, the color space is ignored
+                let color = anstyle::RgbColor(*r as u8, *g as u8, *b as u8);
+                style = match target {
+                    38 => style.fg_color(Some(color.into())),
+                    48 => style.bg_color(Some(color.into())),
+                    _ => style.underline_color(Some(color.into())),
+                };
+                continue;
+            }
             for value in param {
                 match (state, *value) {
                     (State::Normal, 0) => {
